@@ -462,6 +462,10 @@ func ReadFromTTML(i io.Reader) (o *Subtitles, err error) {
 			s.Style = o.Styles[ts.Style]
 		}
 
+		// Normalize line ends the way an XML processor does before parsing (the inner XML is kept raw: a carriage
+		// return left at the end of a line would be taken for a line break when the items are decoded below)
+		ts.Items = strings.NewReplacer("\r\n", "\n", "\r", "\n").Replace(ts.Items)
+
 		// Remove items identation
 		lines := strings.Split(ts.Items, "\n")
 		for i := 0; i < len(lines); i++ {
